@@ -568,7 +568,19 @@ class TensorDict(TensorDictBase):
                     )
                 else:
                     if not inplace:
-                        local_out = swap_tensor(module, key, value)
+                        if (
+                            not is_dynamo
+                            and key in module._parameters
+                            and not isinstance(value, nn.Parameter)
+                        ):
+                            # torch's swap_tensor keeps the slot: a plain tensor would stay in
+                            # _parameters (e.g. when a with-block puts a plain attribute back
+                            # where a Parameter had been swapped in). Place it by kind instead,
+                            # as _set_tensor_dict does.
+                            local_out = module._parameters.pop(key)
+                            setattr(module, key, value)
+                        else:
+                            local_out = swap_tensor(module, key, value)
                     else:
                         new_val = getattr(module, key)
                         if return_swap:
